@@ -223,7 +223,9 @@ pub fn build_stream(src: &Source) -> Vec<u8> {
 pub fn cut_points(cuts: &Cuts, len: usize) -> Vec<usize> {
     let mut pts: Vec<usize> = match cuts {
         Cuts::Whole => vec![],
-        Cuts::ByteAtATime => (1..len).collect(),
+        // byte at a time; streams above 4 KiB in at most ~2048 equal small pieces (the oracle
+        // re-compares the buffer after every piece)
+        Cuts::ByteAtATime => (1..len).step_by(len / 2048 + 1).collect(),
         Cuts::Single(i) => vec![idx(*i, len + 1)],
         Cuts::Multi(v) => v.iter().map(|i| idx(*i, len + 1)).collect(),
     };
@@ -326,6 +328,8 @@ pub fn check_stream(whole: &[u8], cuts: &[usize]) -> CaseResult {
     out.class_if(edge_len, "len-edge");
     out.class_if(used < whole.len(), "incomplete-tail");
     out.class_if(expected.len() >= 2, "frames>=2");
+    let cut_in_large = cuts.iter().any(|c| spans.iter().any(|(_, h, e)| e - h > 4096 && *c > *h && *c < *e));
+    out.class_if(cut_in_large, "cut-inside-payload>4KiB");
     Ok(out)
 }
 
@@ -354,8 +358,10 @@ pub fn check_concat(items: &[(u8, u32, usize, u8)]) -> Result<(), Fail> {
 }
 
 fn frames_strategy() -> BoxedStrategy<Source> {
-    let len = weighted_sizes(vec![(4, 0..=8), (4, 9..=64), (1, 254..=257), (1, 1000..=3000)]);
-    let cmd = prop_oneof![3 => 0u8..=10, 1 => any::<u8>()];
+    // every payload length a frame can carry, weighted towards the small ones (cheap) but with the
+    // large ones present: fragmentation inside a large payload is a case of its own
+    let len = weighted_sizes(vec![(8, 0..=8), (8, 9..=64), (2, 254..=257), (2, 1000..=3000), (1, 3001..=9000), (1, 16380..=16390), (1, 9001..=65529), (1, 65530..=65535)]);
+    let cmd = prop_oneof![3 => 0u8..=10, 2 => Just(2u8), 1 => any::<u8>()];
     let item = (cmd.clone(), sid_strategy(), len.clone(), any::<u8>());
     let tail = proptest::option::of((cmd, sid_strategy(), len, any::<u16>()));
     (proptest::collection::vec(item, 0..6), tail)
